@@ -551,3 +551,10 @@ pub fn span_at<'a>(sp: &'a Span, j: &J, path: &[Step]) -> Option<&'a Span> {
     }
     Some(cur)
 }
+
+/// Overwrite an input text before it is released: a value that still points into its input
+/// (instead of into memory it owns) then reads '@' bytes instead of happening to see the old text.
+pub fn scrub(mut text: String) {
+    unsafe { text.as_bytes_mut().fill(b'@') };
+    drop(text);
+}
